@@ -95,3 +95,28 @@ Definition exactly_derivable (f : route_facts) : bool :=
   forallb (fun '(a, filtered) => agg_exact a && negb filtered) (rf_aggs f) &&
   rf_dims_in_rollup f && rf_filters_on_rollup_columns f && negb (rf_raw_time_filter f) &&
   match rf_time f with NoTime => true | TimeAt ok => ok | TimeBare => false end.
+
+(* ---------- NULL measure values ----------
+   A base row whose measure value is NULL is a row (it makes its bucket exist and counts for COUNT( * )) that no NULL-ignoring
+   aggregate sees.  nrow: a base row and whether its value is NULL (the value field is then meaningless). *)
+Section PreaggNull.
+Variable tr : Z -> Z.
+Notation key := (Z * Z)%type.
+Record nrow := { n_row : brow; n_null : bool }.
+Definition nkey (x : nrow) : key := bkey tr (n_row x).
+Definition non_null_rows (b : list nrow) : list brow := map n_row (filter (fun x => negb (n_null x)) b).
+(* SUM(v): NULL when the bucket holds no non-NULL value; COUNT(v): the non-NULL values.  (COUNT( * ) is C08_count on the table of all rows.) *)
+Record pnrow := { pn_bucket : Z; pn_dim : Z; pn_sum : option Z; pn_cnt : Z }.
+Definition pnkey (x : pnrow) : key := (pn_bucket x, pn_dim x).
+Definition osum (l : list Z) : option Z := match l with [] => None | _ => Some (zsum l) end.
+Definition materialize_n (b : list nrow) : list pnrow :=
+  map (fun k => let vs := vals_at tr (non_null_rows b) k in
+                {| pn_bucket := fst k; pn_dim := snd k; pn_sum := osum vs; pn_cnt := Z.of_nat (length vs) |})
+      (first_occ (map nkey b)).
+Definition somes (l : list (option Z)) : list Z := flat_map (fun o => match o with Some z => [z] | None => [] end) l.
+(* SUM(x_raw) over the selected rollup rows: NULL sums are ignored, NULL when nothing is left *)
+Definition routed_sum_n (sel : key -> bool) (r : list pnrow) : option Z := osum (somes (map pn_sum (filter (fun x => sel (pnkey x)) r))).
+Definition routed_count_n (sel : key -> bool) (r : list pnrow) : Z := zsum (map pn_cnt (filter (fun x => sel (pnkey x)) r)).
+(* the base query: SUM over the non-NULL values of the selected rows *)
+Definition base_sum_n (sel : key -> bool) (b : list nrow) : option Z := osum (base_vals tr sel (non_null_rows b)).
+End PreaggNull.
